@@ -105,6 +105,23 @@ def generate(rng, tier):
             xdg = "xdg"
             env["XDG_CONFIG_HOME"] = "$ROOT/xdg"
             add_config("xdg/rustfmt/rustfmt.toml")
+    elif hk < 72:
+        # the inputs live inside $HOME; the only config is in the user config directory
+        home = "p"
+        env["HOME"] = "$ROOT/p"
+        bare = True
+        for path in [q for q in list(configs) if not q.startswith("cfgs/")]:
+            del configs[path]
+            files.pop(path, None)
+            tgt = linked.pop(path, None)
+            if tgt:
+                files.pop(tgt, None)
+        if rng.chance(50):
+            add_config("p/.config/rustfmt/rustfmt.toml")
+        else:
+            xdg = "xdg"
+            env["XDG_CONFIG_HOME"] = "$ROOT/xdg"
+            add_config("xdg/rustfmt/" + rng.choice([".rustfmt.toml", "rustfmt.toml"]))
     files["home/.keep"] = ""
     nprobe = rng.range(1, 4)
     pdirs = rng.sample(chain + ["p/s"] * (1 if "p/s" in levels or rng.chance(30) else 0) or ["p"], min(nprobe, len(chain) + 1)) or ["p"]
